@@ -125,6 +125,10 @@ pub struct CaseC17 {
     pub cfg: Cfg,
     pub before: Vec<Op>,
     pub after: Vec<Op>,
+    /// file-backed cases: after `before`, close, reopen read-only (map / map_copy_read_only by parity of the length)
+    /// and issue these rewinds: "in all arena states" includes a read-only arena, where rewind can only be a no-op
+    #[serde(default)]
+    pub ro_tail: Vec<crate::case::Pos>,
 }
 
 pub struct C17;
@@ -186,6 +190,17 @@ impl C17 {
                 return (classes, Some(viol!("C17", "cleared-vs-fresh", "continuation step {k}: cleared arena {:?} vs fresh arena {:?}", x, y)));
             }
         }
+        // read-only tail
+        if case.cfg.backend == Backend::File && !case.ro_tail.is_empty() {
+            let mut ops3 = case.before.clone();
+            ops3.push(Op::Reopen { mode: 2 + (case.ro_tail.len() as u8 & 1), cap: 0, create: false, pb: false, flags: 0 });
+            ops3.extend(case.ro_tail.iter().map(|p| Op::Rewind { pos: *p }));
+            let c = run_history::<A>(&case.cfg, &ops3, Mode::default());
+            classes.extend(c.classes.iter().copied());
+            if let Some(v) = c.viol {
+                return (classes, Some(v));
+            }
+        }
         (classes, a.foreign.or(b.foreign))
     }
 }
@@ -201,8 +216,8 @@ impl Prop for C17 {
         let mut pa = p.clone();
         pa.prelude_pct = 0;
         pa.w_clear = 0;
-        (cfg_strategy(&p), case_strategy(&p), prop::collection::vec(op_strategy(&pa), 0..=12))
-            .prop_map(|(cfg, c, after)| CaseC17 { cfg, before: c.ops, after })
+        (cfg_strategy(&p), case_strategy(&p), prop::collection::vec(op_strategy(&pa), 0..=12), prop::collection::vec(crate::case::pos_strategy(), 0..=3))
+            .prop_map(|(cfg, c, after, ro_tail)| CaseC17 { cfg, before: c.ops, after, ro_tail })
             .boxed()
     }
     fn run(case: &CaseC17) -> CaseReport {
@@ -217,7 +232,7 @@ impl Prop for C17 {
         scale(tier, 320_000, 8_000_000)
     }
     fn rule() -> &'static str {
-        "histories with boundary-dense ArenaPosition values (Start/End/Current at 0, data_offset+-3, allocated+-3, capacity+-3, u32/i64 extremes, -allocated+-3, capacity-allocated+-3) issued in every reachable state under rewind's contract (handles above the target are forgotten first, a free list reaching above it is discarded first); oracle: allocated() == clamp(target computed in i128, data_offset, capacity), nothing else changes, no panic in the checked or the unchecked build. Then clear() followed by a generated continuation, which is also run on a fresh arena with the same options + set_minimum_segment_size(current): cursor at data_offset, empty list, discarded 0, zeroed data area, and equal observation streams. Non-trivial = the history moved the cursor by rewind, had recycled/segment activity, and cleared"
+        "histories with boundary-dense ArenaPosition values (Start/End/Current at 0, data_offset+-3, allocated+-3, capacity+-3, u32/i64 extremes, -allocated+-3, capacity-allocated+-3) issued in every reachable state under rewind's contract (handles above the target are forgotten first, a free list reaching above it is discarded first); oracle: allocated() == clamp(target computed in i128, data_offset, capacity), nothing else changes, no panic in the checked or the unchecked build. Then clear() followed by a generated continuation, which is also run on a fresh arena with the same options + set_minimum_segment_size(current): cursor at data_offset, empty list, discarded 0, zeroed data area, and equal observation streams. File-backed cases end with a read-only reopen (map / map_copy_read_only) followed by up to three rewinds, which must leave the arena exactly as it is (the cursor lives in a read-only mapping; rewind has no error to return). Non-trivial = the history moved the cursor by rewind, had recycled/segment activity, and cleared"
     }
     fn assumptions() -> Vec<&'static str> {
         vec!["rewind/clear are unsafe: the harness respects their documented contract (no handle above the new cursor is used afterwards)"]
@@ -225,10 +240,10 @@ impl Prop for C17 {
     fn simplify(c: &CaseC17) -> Vec<CaseC17> {
         let mut out = Vec::new();
         for b in simplify_case_a(&CaseA { cfg: c.cfg.clone(), ops: c.before.clone() }) {
-            out.push(CaseC17 { cfg: c.cfg.clone(), before: b.ops, after: c.after.clone() });
+            out.push(CaseC17 { cfg: c.cfg.clone(), before: b.ops, after: c.after.clone(), ro_tail: c.ro_tail.clone() });
         }
         for a in simplify_case_a(&CaseA { cfg: c.cfg.clone(), ops: c.after.clone() }) {
-            out.push(CaseC17 { cfg: c.cfg.clone(), before: c.before.clone(), after: a.ops });
+            out.push(CaseC17 { cfg: c.cfg.clone(), before: c.before.clone(), after: a.ops, ro_tail: c.ro_tail.clone() });
         }
         out
     }
@@ -243,9 +258,47 @@ pub struct CaseC16 {
     pub delta: i32,
     pub first_ty: u8,
     pub ops: Vec<Op>,
+    /// constructor-only case with a reserved size of u32::MAX - k (the prefix can never fit): construction must fail
+    /// cleanly on every backend and layout - no panic, no wrap-around, no crash
+    #[serde(default)]
+    pub huge_reserved: Option<u8>,
 }
 
 pub struct C16;
+
+/// reserved = u32::MAX - k with a small capacity: the prefix (reserved + 1, or align8(reserved) + 8 + header) exceeds
+/// any u32 capacity, so every constructor must return an error
+fn c16_huge_reserved<A: Flavor>(case: &CaseC16, k: u8) -> R<BTreeSet<&'static str>> {
+    use crate::enga::{base_opts, fresh_path, guard};
+    let mut classes = BTreeSet::new();
+    let cfg = &case.cfg;
+    let reserved = u32::MAX - k as u32;
+    let cap = 64 + case.delta.unsigned_abs() % 8000;
+    let opts = base_opts(cfg).with_reserved(reserved).with_capacity(cap);
+    classes.insert("reserved-near-u32-max");
+    let what;
+    let accepted = match cfg.backend {
+        Backend::Vec => {
+            what = "alloc";
+            guard("alloc(ctor, huge reserved)", "C16", || opts.alloc::<A>().map(std::mem::forget).is_ok())?
+        }
+        Backend::Anon => {
+            what = "map_anon";
+            guard("map_anon(huge reserved)", "C16", || opts.map_anon::<A>().map(std::mem::forget).is_ok())?
+        }
+        Backend::File => {
+            what = "map_mut";
+            let p = fresh_path();
+            let _ = std::fs::remove_file(&p);
+            let o = opts.with_read(true).with_write(true).with_create_new(true);
+            let r = guard("map_mut(create, huge reserved)", "C16", || unsafe { o.map_mut::<A, _>(&p) }.map(std::mem::forget).is_ok());
+            let _ = std::fs::remove_file(&p);
+            r?
+        }
+    };
+    ensure!(!accepted, "C16", "ctor-accepted-small", "{what} with reserved {reserved} (unify {}) and capacity {cap} succeeded: the prefix cannot fit", cfg.unify);
+    Ok(classes)
+}
 
 fn c16_ctor<A: Flavor>(case: &CaseC16) -> R<BTreeSet<&'static str>> {
     use crate::enga::{base_opts, fresh_path, guard, page_size};
@@ -359,6 +412,16 @@ fn c16_ctor<A: Flavor>(case: &CaseC16) -> R<BTreeSet<&'static str>> {
 }
 
 fn c16_run_inner(case: &CaseC16) -> CaseReport {
+        if let Some(k) = case.huge_reserved {
+            let r = match case.cfg.flavor {
+                Fl::Sync => c16_huge_reserved::<sync::Arena>(case, k),
+                Fl::Unsync => c16_huge_reserved::<unsync::Arena>(case, k),
+            };
+            return match r {
+                Ok(classes) => CaseReport { nontrivial: true, classes, viol: None },
+                Err(v) => CaseReport { nontrivial: false, classes: BTreeSet::new(), viol: Some(v) },
+            };
+        }
         let r = match case.cfg.flavor {
             Fl::Sync => c16_ctor::<sync::Arena>(case),
             Fl::Unsync => c16_ctor::<unsync::Arena>(case),
@@ -401,9 +464,10 @@ fn c16_run_inner(case: &CaseC16) -> CaseReport {
                 let lock_viol = viol.take();
                 let mut c = case.cfg.clone();
                 c.cap_extra = case.delta as u32;
+                let smode = Mode { below_cursor_reopen: true, ..Mode::default() };
                 let single = match c.flavor {
-                    Fl::Sync => run_history::<sync::Arena>(&c, &case.ops, Mode::default()),
-                    Fl::Unsync => run_history::<unsync::Arena>(&c, &case.ops, Mode::default()),
+                    Fl::Sync => run_history::<sync::Arena>(&c, &case.ops, smode.clone()),
+                    Fl::Unsync => run_history::<unsync::Arena>(&c, &case.ops, smode),
                 };
                 classes.extend(single.classes.iter().copied());
                 viol = match single.viol {
@@ -419,6 +483,10 @@ fn c16_run_inner(case: &CaseC16) -> CaseReport {
 impl Prop for C16 {
     type Case = CaseC16;
     const ID: &'static str = "C16";
+    // "unopt": an unoptimised build (a sixteenth of the cases): there a struct written by value carries whatever the
+    // stack held in its padding, so "the bytes ... are identical" is judged on real copies, not on what the
+    // optimiser happens to emit
+    const PROFILES: &'static [&'static str] = &["checked", "unopt"];
     fn strategy(tier: Tier) -> BoxedStrategy<CaseC16> {
         let mut p = Profile::base();
         p.reserved_max = 4096;
@@ -438,11 +506,11 @@ impl Prop for C16 {
         p.w_reopen = 2;
         p.reopen_modes = &[(3, 0), (1, 1), (2, 2), (1, 3)];
         let delta = prop_oneof![4 => -3i32..=3, 1 => -40i32..0, 3 => 4i32..3000];
-        (cfg_strategy(&p), delta, 0u8..crate::types::ntypes() as u8, prop::collection::vec(op_strategy(&p), 0..=p.max_ops), prelude_strategy(), any::<bool>())
-            .prop_map(|(cfg, delta, first_ty, ops, pre, use_pre)| {
+        (cfg_strategy(&p), delta, 0u8..crate::types::ntypes() as u8, prop::collection::vec(op_strategy(&p), 0..=p.max_ops), prelude_strategy(), any::<bool>(), prop_oneof![60 => Just(None), 1 => (0u8..24).prop_map(Some)])
+            .prop_map(|(cfg, delta, first_ty, ops, pre, use_pre, huge_reserved)| {
                 let mut all = if use_pre { pre } else { vec![] };
                 all.extend(ops);
-                CaseC16 { cfg, delta, first_ty, ops: all }
+                CaseC16 { cfg, delta, first_ty, ops: all, huge_reserved }
             })
             .boxed()
     }
@@ -456,9 +524,9 @@ impl Prop for C16 {
         scale(tier, 400_000, 3_000_000)
     }
     fn rule() -> &'static str {
-        "constructor cases: reserved 0..=4096, capacity = prefix + delta (delta -40..3000, dense at -3..=3), unify on/off, Vec/anon/file, both flavours: construction succeeds iff capacity >= Options::data_offset / data_offset_unify (the API's own functions are the reference) and fails with InsufficientSpace (Vec) / InvalidInput (maps); data_offset(), first allocation offset, reserved_slice length, remaining law and the descriptive accessor table match the constructor used (the accessor table, data_offset() and the remaining law are re-checked after every step of every history for every live arena value - clones and reopened files included). Then one generated history is run with unify=true on Vec, anon and file arenas: observation tuples and a hash of memory() equal after every step, final memory() equal. Reserved prefix pattern checked after every step. Non-trivial = reserved not a multiple of 8 or capacity within +-1 of the prefix"
+        "constructor cases: reserved 0..=4096 (and, one case in 60, u32::MAX-k with a small capacity, where every constructor must fail without a panic or a wrap-around), capacity = prefix + delta (delta -40..3000, dense at -3..=3), unify on/off, Vec/anon/file, both flavours: construction succeeds iff capacity >= Options::data_offset / data_offset_unify (the API's own functions are the reference) and fails with InsufficientSpace (Vec) / InvalidInput (maps); data_offset(), first allocation offset, reserved_slice length, remaining law and the descriptive accessor table match the constructor used (the accessor table, data_offset() and the remaining law are re-checked after every step of every history for every live arena value - clones and reopened files included). Then one generated history is run with unify=true on Vec, anon and file arenas: observation tuples and a hash of memory() equal after every step, final memory() equal. Reserved prefix pattern checked after every step. Non-trivial = reserved not a multiple of 8 or capacity within +-1 of the prefix"
     }
     fn simplify(c: &CaseC16) -> Vec<CaseC16> {
-        simplify_case_a(&CaseA { cfg: c.cfg.clone(), ops: c.ops.clone() }).into_iter().map(|x| CaseC16 { cfg: c.cfg.clone(), delta: c.delta, first_ty: c.first_ty, ops: x.ops }).collect()
+        simplify_case_a(&CaseA { cfg: c.cfg.clone(), ops: c.ops.clone() }).into_iter().map(|x| CaseC16 { cfg: c.cfg.clone(), delta: c.delta, first_ty: c.first_ty, ops: x.ops, huge_reserved: c.huge_reserved }).collect()
     }
 }
